@@ -102,6 +102,8 @@ pub mod k {
     pub const LINK_MTU2: i128 = 67;
     pub const DROP_MASK_DIR: i128 = 68; // 0 both, 1 only client->server, 2 only server->client
     pub const FAIR_RUN: i128 = 69; // >0: at most this many consecutive random drops per direction
+    pub const SERVER_EARLY: i128 = 71; // server application opens/writes its own streams before Connected (0.5-RTT data)
+    pub const RECONNECT: i128 = 70; // open this many further client connections, one per drained connection (slot reuse)
 }
 
 pub struct Rng(u64);
@@ -830,6 +832,7 @@ impl World {
         let closer = self.p.get(k::CLOSER, 0);
         let close_at = self.p.get(k::CLOSE_AT, 0);
         let zero_rtt = self.p.get(k::ZERO_RTT, 0);
+        let self_server_early = self.p.get(k::SERVER_EARLY, 0) != 0;
         let self_nbidi = self.p.get(k::NBIDI, 1) as u64;
         let self_nuni = self.p.get(k::NUNI, 0) as u64;
         let self_ndgram = self.p.get(k::NDGRAM, 0) as u64;
@@ -925,7 +928,7 @@ impl World {
             }
         }
         let can_start = app.connected || (app.is_client && zero_rtt > 0 && conn.has_0rtt()) || !app.is_client;
-        let may_open = app.connected || app.is_client;
+        let may_open = app.connected || app.is_client || self_server_early;
         if !app.connected && can_start && app.is_client {
             app.early_started = true;
         }
@@ -1321,6 +1324,8 @@ impl World {
             self.drive_conn(0, chk);
         }
         let mut migrated = 0;
+        let mut reconnect_left = self.p.get(k::RECONNECT, 0);
+        let mut replaced = 0usize;
         let mut keyupd = [false, false];
         let mut rwnd_done = false;
         let mut mtu_changed = false;
@@ -1480,6 +1485,16 @@ impl World {
                 }
             }
             self.poke_zombies();
+            // slot reuse: a drained client connection is replaced by a fresh one
+            if reconnect_left > 0 && self.eps[0].zombies.len() > replaced && !self.eps[0].silent {
+                replaced += 1;
+                reconnect_left -= 1;
+                self.connect_client(false);
+                let keys: Vec<usize> = self.eps[0].conns.keys().cloned().collect();
+                if let Some(chk) = keys.last() {
+                    self.drive_conn(0, *chk);
+                }
+            }
         }
         // final summary per connection (live or zombie)
         let t = self.now as i128;
